@@ -4,7 +4,7 @@
    The tie  text -> tokens -> these trees  is the tokenizer's and parser's (C11, C09) and is exercised on the
    real tokenizer/parser/evaluator by the C19 correspondence stream, which assembles every printed text. *)
 From Coq Require Import ZArith NArith List String.
-From Trion Require Import Text.Types Arm.Instr Arm.EncodeModel Arm.DisplayModel Arm.DisplayArgs Arm.AsmStmtModel Arm.AsmStmtProofs.
+From Trion Require Import Text.Types Expr.EvalModel Arm.Instr Arm.EncodeModel Arm.DisplayModel Arm.DisplayArgs Arm.AsmStmtModel Arm.AsmStmtProofs Arm.AsmEvalLink.
 Import ListNotations.
 Open Scope N_scope.
 
@@ -20,6 +20,14 @@ Theorem C19_statement_roundtrip : forall ev local i addr hws, ev_display ev ->
   wf_instr i -> enc i = EncOk hws -> addr < 4294967296 -> target_in_space i addr = true ->
   conv_val (assemble_stmt ev local addr (mnemonic i) (display_args i addr)) = Some i.
 Proof. exact stmt_roundtrip. Qed.
+
+(* the same with the model of asm::simplify::evaluate (C07/C08) as the evaluator: the only premise left about
+   the environment is that the labels the text mentions are defined at the addresses they name *)
+Theorem C19_statement_roundtrip_eval : forall lk local i addr hws,
+  (forall t, t < 4294967296 -> lk (label t) = Found (Z.of_N t)) ->
+  wf_instr i -> enc i = EncOk hws -> addr < 4294967296 -> target_in_space i addr = true ->
+  conv_val (assemble_stmt (ev_of lk) local addr (mnemonic i) (display_args i addr)) = Some i.
+Proof. exact stmt_roundtrip_eval. Qed.
 
 (* the printed label is the architectural target *)
 Theorem C19_label_is_target : forall i addr t, pc_target i addr = Some t ->
